@@ -425,23 +425,37 @@ elif op == "assign":
 raised = res[0] == "exc"
 if raised and res[1] != "ConfigException": why = "escaped with " + res[1]
 if why is None and raised != expect_raise: why = "raised=%%s expected=%%s" %% (raised, expect_raise)
-if why is None:
-    # later reads: under the witness environment and, because the environment is re-read on every access, under
-    # alternative values of each key's variable too (a stale stored value is observable exactly then)
-    for i, th in enumerate(ths):
-        if post[i][0] == "pending": continue
-        for k in KEYS:
-            saved = os.environ.get("SQLLINEAGE_" + k)
+def check_reads(i, th, note):
+    # reads under the witness environment and, because the environment is re-read on every access, under
+    # alternative values of each key's variable too (a stale or a lost stored value is observable exactly then)
+    for k in KEYS:
+        saved = os.environ.get("SQLLINEAGE_" + k)
+        try:
             for alt in ([saved] + (["true", "false"] if TYPES[k] is bool else ["altenv", ""])):
                 if alt is None: os.environ.pop("SQLLINEAGE_" + k, None)
                 else: os.environ["SQLLINEAGE_" + k] = alt
                 got = th.do(lambda k=k: getattr(cfg, k))
                 want = spec_read(post[i], k)
                 if got != ("ok", want) or type(got[1]) is not type(want):
-                    why = "thread %%d reads %%s = %%r with %%s=%%r, specification says %%r" %% (i, k, got, "SQLLINEAGE_" + k, alt, want); break
+                    return "thread %%d%%s reads %%s = %%r with %%s=%%r, specification says %%r" %% (i, note, k, got, "SQLLINEAGE_" + k, alt, want)
+        finally:
             if saved is None: os.environ.pop("SQLLINEAGE_" + k, None)
             else: os.environ["SQLLINEAGE_" + k] = saved
-            if why: break
+    return None
+if why is None:
+    for i, th in enumerate(ths):
+        if post[i][0] == "pending": continue
+        why = check_reads(i, th, "")
+        if why: break
+if why is None:
+    # a thread left between its override call and the scope entry: what it stored must still be there when it enters
+    for i, th in enumerate(ths):
+        if post[i][0] != "pending": continue
+        r = th.do(lambda: cfg.__enter__())
+        if r[0] != "ok":
+            why = "thread %%d could not enter its pending scope: %%r" %% (i, r); break
+        post[i] = ("inside", post[i][1])
+        why = check_reads(i, th, ", entering its pending scope after the step,")
         if why: break
 for th in ths: th.q.put(None)
 result = {"ok": why is None, "why": why}
